@@ -84,12 +84,20 @@ def run(rep):
     okfail = len(fail) == 2 and all(cq.same_expr(e.val, "-1") for e in fail) and not other
     rep.check(okfail, "R07.c", file, "c_cell2rowcol", "`c < 0 || c >= nrows*ncols` separates the conversion from the path that stores (-1, -1)",
               "; ".join(repr(e) for e in fail + other)[:300], line=loop.get("_line"))
+    stale = [e for e in fail if not cq.same_expr(e.val, "-1")]
+    rep.check(not stale, "R07.c", file, "c_cell2rowcol", "an invalid cell number stores -1 whatever the previous iterations left behind",
+              "; ".join(repr(e) for e in stale)[:300], line=loop.get("_line"), firm=True)
     fn, loop, okf, good, fail, other, by = cell_kernel("c_cell2coord", "xycoords", "xll + csz*(COL + 0.5)", "yll + csz*((nrows - 1 - ROW) + 0.5)", "nan")
     rep.check(okf, "R07.a", file, "c_cell2coord", "valid cell c: stores the centre (xll + csz (col + 1/2), yll + csz (nrows-1-row + 1/2))",
               "; ".join(repr(e) for e in good)[:300], line=loop.get("_line"))
     okfail = len(fail) == 2 and all(is_nan(e.val) for e in fail) and not other
     rep.check(okfail, "R07.c", file, "c_cell2coord", "`c < 0 || c >= nrows*ncols` separates the conversion from the path that stores (NaN, NaN)",
               "; ".join(repr(e) for e in fail + other)[:300], line=loop.get("_line"))
+    # one iteration evaluated from an arbitrary state: what an invalid cell stores may not be a value carried over from an earlier iteration
+    stale = [e for e in fail if not is_nan(e.val)]
+    rep.check(not stale, "R07.c", file, "c_cell2coord", "an invalid cell number stores NaN whatever the previous iterations left behind",
+              "; ".join(repr(e) for e in stale)[:300] + ": the value depends on state carried from an earlier element (an invalid cell after a valid one inherits its coordinates)",
+              line=loop.get("_line"), firm=True)
 
     # ---------------- c_coord2cell ------------------------------------------------------------------------------------------------------------
     cc = N("c_coord2cell")
